@@ -25,11 +25,18 @@ use std::path::PathBuf;
 use std::sync::OnceLock;
 
 const POOL: &[&str] = &[
-    "one", "Two", "two", "TWO", "three", "four", "caf\u{e9}", "cafe\u{301}", "CAF\u{c9}", "\u{fb01}sh", "fish", "x", "a-b", "b;c", "it's", "\u{212b}ng", "\u{e5}ng", "na\u{ef}ve", "\u{130}st", "42", "two2",
+    "one", "Two", "two", "TWO", "three", "four", "caf\u{e9}", "cafe\u{301}", "CAF\u{c9}", "\u{fb01}sh", "fish", "x", "a-b", "b;c", "it's", "\u{212b}ng", "\u{e5}ng", "na\u{ef}ve", "\u{130}st", "42", "two2", "caf\u{2122}", "\u{2116}7", "\u{1d2c}b",
 ];
 const OOV: &[&str] = &["zebra", "Quux", "\u{fb03}x", "seven", "q"];
-const SEPS: &[&str] = &[" ", " ", " ", ", ", ";", "  ", ". ", "\n", " - ", "!"];
+const SEPS: &[&str] = &[" ", " ", " ", ", ", ";", "  ", ". ", "\n", " - ", "!", "\u{fffd}", " \u{fffd} "];
 const NOSPACE_RE: &str = r"\b[^ ][^ ]+\b";
+/// a case-sensitive user regex: lower-casing after tokenisation, or a regex compiled with other flags
+/// (case-insensitive), gives other tokens
+const LOWER_RE: &str = r"[a-z]+";
+const DEFAULT_RE: &str = r"\b\w\w+\b";
+/// the tokeniser of the parameter object a `reuse` fit starts from (compiled into its regex cache by a
+/// first fit, then replaced by the configured one)
+const DECOY_RE: &str = r"[A-Za-z]";
 
 fn split_blank(s: &str) -> Vec<&str> {
     s.split(' ').collect()
@@ -59,12 +66,51 @@ impl Cfg {
         p = match self.tok {
             1 => p.tokenizer(Tokenizer::Regex(NOSPACE_RE.to_string())),
             2 => p.tokenizer(Tokenizer::Function(split_blank)),
+            3 => p.tokenizer(Tokenizer::Regex(LOWER_RE.to_string())),
             _ => p,
         };
         if let Some(s) = &self.stop {
             p = p.stopwords(s);
         }
         p
+    }
+    /// a parameter object with a history: built with another tokeniser, fitted once (which compiles
+    /// that tokeniser's regex into the object's cache), cloned, then configured like `count_params`
+    /// (every setter, the tokeniser explicitly) — the settings of the last configuration must win
+    fn count_params_reused(&self) -> CountVectorizerParams {
+        let p0 = CountVectorizer::params().tokenizer(Tokenizer::Regex(DECOY_RE.to_string())).n_gram_range(1, 2).document_frequency(0.0, 0.5).max_features(Some(3));
+        let decoy = Array1::from(vec!["two two zebra".to_string(), "one Two".to_string()]);
+        let first = p0.fit(&decoy).expect("the first fit of a reused parameter object");
+        assert!(first.nentries() <= 3);
+        let mut p = p0
+            .clone()
+            .convert_to_lowercase(self.lower)
+            .normalize(self.norm)
+            .n_gram_range(self.nmin, self.nmax)
+            .document_frequency(self.lo, self.hi)
+            .max_features(self.cap);
+        p = match self.tok {
+            1 => p.tokenizer(Tokenizer::Regex(NOSPACE_RE.to_string())),
+            2 => p.tokenizer(Tokenizer::Function(split_blank)),
+            3 => p.tokenizer(Tokenizer::Regex(LOWER_RE.to_string())),
+            _ => p.tokenizer(Tokenizer::Regex(DEFAULT_RE.to_string())),
+        };
+        if let Some(s) = &self.stop {
+            p = p.stopwords(s);
+        }
+        p
+    }
+    fn tfidf_params_reused(&self, method: &str) -> TfIdfVectorizer {
+        let p0 = self.tfidf_params(method).tokenizer(Tokenizer::Regex(DECOY_RE.to_string()));
+        let decoy = Array1::from(vec!["two two zebra".to_string(), "one Two".to_string()]);
+        // the decoy fit may be refused by the configured settings; it only has to run check_ref
+        let _ = p0.fit(&decoy);
+        match self.tok {
+            1 => p0.clone().tokenizer(Tokenizer::Regex(NOSPACE_RE.to_string())),
+            2 => p0.clone().tokenizer(Tokenizer::Function(split_blank)),
+            3 => p0.clone().tokenizer(Tokenizer::Regex(LOWER_RE.to_string())),
+            _ => p0.clone().tokenizer(Tokenizer::Regex(DEFAULT_RE.to_string())),
+        }
     }
     /// `TfIdfVectorizer` has no public setter for the idf method; a value with another method is
     /// obtained through its public serde implementation, the settings are applied afterwards.
@@ -88,6 +134,7 @@ impl Cfg {
         p = match self.tok {
             1 => p.tokenizer(Tokenizer::Regex(NOSPACE_RE.to_string())),
             2 => p.tokenizer(Tokenizer::Function(split_blank)),
+            3 => p.tokenizer(Tokenizer::Regex(LOWER_RE.to_string())),
             _ => p,
         };
         if let Some(s) = &self.stop {
@@ -101,6 +148,7 @@ impl Cfg {
         p = match self.tok {
             1 => p.tokenizer(Tokenizer::Regex(NOSPACE_RE.to_string())),
             2 => p.tokenizer(Tokenizer::Function(split_blank)),
+            3 => p.tokenizer(Tokenizer::Regex(LOWER_RE.to_string())),
             _ => p,
         };
         p.check().expect("tokeniser settings are valid")
@@ -110,7 +158,7 @@ impl Cfg {
     }
     fn settings(&self) -> String {
         format!(
-            "nmin={} nmax={} lo={} hi={} stop={} cap={}",
+            "nmin={} nmax={} lo={} hi={} stop={} stopn={} cap={}",
             self.nmin,
             self.nmax,
             hex32(self.lo),
@@ -119,11 +167,20 @@ impl Cfg {
                 None => "none".to_string(),
                 Some(s) => format!("S:{}", list(s.iter(), |w| xw(w))),
             },
+            match &self.stop {
+                None => "none".to_string(),
+                Some(_) => format!("S:{}", list(self.stop_normalised().iter(), |w| xw(w))),
+            },
             match self.cap {
                 None => "none".to_string(),
                 Some(c) => c.to_string(),
             }
         )
+    }
+    /// the stop list as it would read if it were normalised like the documents (the statement does
+    /// not say whether it is; linfa compares the raw strings)
+    fn stop_normalised(&self) -> Vec<String> {
+        self.stop.as_ref().map_or(vec![], |s| s.iter().map(|w| ref_transform(self.lower, self.norm, w)).collect())
     }
     fn class(&self) -> String {
         format!(
@@ -165,6 +222,11 @@ fn ref_nfkd_char(c: char, out: &mut String) {
         '\u{e5}' => out.push_str("a\u{30a}"),
         '\u{ef}' => out.push_str("i\u{308}"),
         '\u{130}' => out.push_str("I\u{307}"),
+        // compatibility mappings to UPPER-case letters: NFKD and lower-casing do not commute here
+        '\u{2122}' => out.push_str("TM"),
+        '\u{2116}' => out.push_str("No"),
+        '\u{1d2c}' => out.push('A'),
+        '\u{fffd}' => out.push(c),
         c if c.is_ascii() || ('\u{300}'..='\u{36f}').contains(&c) => out.push(c),
         c => panic!("C17 reference NFKD: character {:?} is outside the alphabet", c),
     }
@@ -176,6 +238,8 @@ fn ref_lower_char(c: char, out: &mut String) {
         '\u{212b}' | '\u{c5}' => out.push('\u{e5}'),
         '\u{130}' => out.push_str("i\u{307}"),
         '\u{e9}' | '\u{fb01}' | '\u{fb03}' | '\u{e5}' | '\u{ef}' => out.push(c),
+        // no lower-case mapping (symbols; the modifier letter is already "lowercase")
+        '\u{2122}' | '\u{2116}' | '\u{1d2c}' | '\u{fffd}' => out.push(c),
         c if c.is_ascii() => out.push(c.to_ascii_lowercase()),
         c if ('\u{300}'..='\u{36f}').contains(&c) => out.push(c),
         c => panic!("C17 reference lower-casing: character {:?} is outside the alphabet", c),
@@ -252,13 +316,32 @@ fn ref_tok_noblank(s: &str) -> Vec<String> {
     }
     out
 }
+/// the user regex `[a-z]+`: maximal runs of ASCII lower-case letters
+fn ref_tok_lower(s: &str) -> Vec<String> {
+    let mut out = vec![];
+    let mut cur = String::new();
+    for c in s.chars().chain(std::iter::once(' ')) {
+        if c.is_ascii_lowercase() {
+            cur.push(c);
+        } else if !cur.is_empty() {
+            out.push(std::mem::take(&mut cur));
+        }
+    }
+    out
+}
 fn ref_tokens(cfg: &Cfg, doc: &str) -> Vec<String> {
     let s = ref_transform(cfg.lower, cfg.norm, doc);
     match cfg.tok {
         0 => ref_tok_default(&s),
         1 => ref_tok_noblank(&s),
+        3 => ref_tok_lower(&s),
         _ => s.split(' ').map(|t| t.to_string()).collect(),
     }
+}
+/// the tokens the regex `[A-Za-z]` of the decoy configuration would give (every ASCII letter on its
+/// own) — what a parameter object that kept a stale compiled regex would tokenise to
+fn ref_tokens_decoy(cfg: &Cfg, doc: &str) -> Vec<String> {
+    ref_transform(cfg.lower, cfg.norm, doc).chars().filter(|c| c.is_ascii_alphabetic()).map(|c| c.to_string()).collect()
 }
 fn tok_class(cfg: &Cfg) -> String {
     format!("lower={}:norm={}:tok={}", cfg.lower, cfg.norm, cfg.tok)
@@ -290,9 +373,10 @@ impl std::fmt::Display for Doc {
     }
 }
 
-const FIT_FORMS: &[&str] = &["owned", "view", "strided", "reversed", "strref", "display", "checked", "files"];
-const TFIDF_FIT_FORMS: &[&str] = &["owned", "view", "strided", "reversed", "strref", "display", "files"];
-const TR_FORMS: &[&str] = &["owned", "view", "strided", "reversed", "strref", "display", "serde", "files"];
+const FIT_FORMS: &[&str] = &["owned", "view", "strided", "reversed", "revstrided", "strref", "display", "checked", "reuse", "files", "files16", "filesrep", "filesign"];
+const TFIDF_FIT_FORMS: &[&str] = &["owned", "view", "strided", "reversed", "revstrided", "strref", "display", "reuse", "files", "files16", "filesrep", "filesign"];
+const TR_FORMS: &[&str] = &["owned", "view", "strided", "reversed", "revstrided", "strref", "display", "serde", "twice", "files", "files16", "filesrep", "filesign"];
+const VOC_FORMS: &[&str] = &["owned", "strref", "display", "checked"];
 
 /// evaluate `$body` with `$x` bound to a reference to the documents as a one-dimensional array in the
 /// named in-memory layout / element type
@@ -325,6 +409,19 @@ macro_rules! on_form {
                 let $x = &v;
                 $body
             }
+            "revstrided" => {
+                // negative stride of two: the documents are the odd positions read backwards
+                let mut w = Vec::new();
+                for d in docs.iter().rev() {
+                    w.push(format!("junkword {} zebra", d));
+                    w.push(d.clone());
+                }
+                let a = Array1::from(w);
+                let v = a.slice(s![..;-2]);
+                let v = if docs.is_empty() { a.slice(s![0..0]) } else { v };
+                let $x = &v;
+                $body
+            }
             "strref" => {
                 let w: Vec<&str> = docs.iter().map(|s| s.as_str()).collect();
                 let a = Array1::from(w);
@@ -354,22 +451,95 @@ fn file_dir() -> &'static PathBuf {
         d
     })
 }
-fn write_files(tag: &str, docs: &[String]) -> Vec<PathBuf> {
+/// the bytes of a document file for the named files form:
+/// `files` UTF-8; `files16` UTF-16LE; `fileslatin1` ISO-8859-1 (documents of Latin-1 characters only);
+/// `filesrep` UTF-8 in which every U+FFFD of the document is the single invalid byte 0xFF (read back
+/// with the Replace trap); `filesign` UTF-8 with an invalid byte 0xFF put in front of every blank and
+/// at the end (read back with the Ignore trap)
+fn file_bytes(form: &str, d: &str) -> Vec<u8> {
+    match form {
+        "files16" => d.encode_utf16().flat_map(|u| u.to_le_bytes()).collect(),
+        "fileslatin1" => d.chars().map(|c| u8::try_from(c as u32).expect("a Latin-1 document")).collect(),
+        "filesrep" => {
+            let mut out = vec![];
+            let mut buf = [0u8; 4];
+            for c in d.chars() {
+                if c == '\u{fffd}' {
+                    out.push(0xff);
+                } else {
+                    out.extend_from_slice(c.encode_utf8(&mut buf).as_bytes());
+                }
+            }
+            out
+        }
+        "filesign" => {
+            let mut out = vec![];
+            for b in d.bytes() {
+                if b == b' ' {
+                    out.push(0xff);
+                }
+                out.push(b);
+            }
+            out.push(0xff);
+            out
+        }
+        _ => d.as_bytes().to_vec(),
+    }
+}
+/// evaluate `$body` with the `encoding` / `trap` arguments of the named files form (the harness does
+/// not depend on the `encoding` crate: the values come from the hooks)
+macro_rules! with_codec {
+    ($form:expr, $enc:ident, $trap:ident => $body:expr) => {
+        match $form {
+            "files16" => {
+                let ($enc, $trap) = (hk::utf16le(), hk04::strict());
+                $body
+            }
+            "fileslatin1" => {
+                let ($enc, $trap) = (hk::latin1(), hk04::strict());
+                $body
+            }
+            "filesrep" => {
+                let ($enc, $trap) = (hk04::utf8(), hk::replace());
+                $body
+            }
+            "filesign" => {
+                let ($enc, $trap) = (hk04::utf8(), hk::ignore());
+                $body
+            }
+            _ => {
+                let ($enc, $trap) = (hk04::utf8(), hk04::strict());
+                $body
+            }
+        }
+    };
+}
+fn write_files(tag: &str, form: &str, docs: &[String]) -> Vec<PathBuf> {
     docs.iter()
         .enumerate()
         .map(|(k, d)| {
             let p = file_dir().join(format!("{}{}.txt", tag, k));
-            std::fs::write(&p, d.as_bytes()).expect("write a document file");
+            std::fs::write(&p, file_bytes(form, d)).expect("write a document file");
             p
         })
         .collect()
+}
+fn decoy_docs() -> Array1<String> {
+    Array1::from(vec!["two two zebra four".to_string(), "one".to_string(), "two caf\u{e9}".to_string()])
 }
 
 type PResult<T> = Result<T, linfa_preprocessing::PreprocessingError>;
 
 fn fit_count(cfg: &Cfg, form: &str, docs: &[String]) -> PResult<CountVectorizer> {
     match form {
-        "files" => cfg.count_params().fit_files(&write_files("fit", docs), hk04::utf8(), hk04::strict()),
+        f if f.starts_with("files") => with_codec!(f, enc, trap => cfg.count_params().fit_files(&write_files("fit", f, docs), enc, trap)),
+        "reuse" => {
+            let p = cfg.count_params_reused();
+            let a = Array1::from(docs.to_vec());
+            // the same object fits twice: another corpus first
+            let _ = p.fit(&decoy_docs());
+            p.fit(&a)
+        }
         "checked" => {
             let v = cfg.count_params().check()?;
             let a = Array1::from(docs.to_vec());
@@ -380,13 +550,26 @@ fn fit_count(cfg: &Cfg, form: &str, docs: &[String]) -> PResult<CountVectorizer>
 }
 fn fit_tfidf(cfg: &Cfg, method: &str, form: &str, docs: &[String]) -> PResult<FittedTfIdfVectorizer> {
     match form {
-        "files" => cfg.tfidf_params(method).fit_files(&write_files("fit", docs), hk04::utf8(), hk04::strict()),
+        f if f.starts_with("files") => with_codec!(f, enc, trap => cfg.tfidf_params(method).fit_files(&write_files("fit", f, docs), enc, trap)),
+        "reuse" => {
+            let p = cfg.tfidf_params_reused(method);
+            let a = Array1::from(docs.to_vec());
+            let _ = p.fit(&decoy_docs());
+            p.fit(&a)
+        }
         _ => on_form!(form, docs, x => cfg.tfidf_params(method).fit(x)),
     }
 }
 fn transform_count(cfg: &Cfg, cv: &CountVectorizer, form: &str, docs: &[String]) -> PResult<CsMat<usize>> {
     match form {
-        "files" => cv.transform_files(&write_files("tr", docs), hk04::utf8(), hk04::strict()),
+        f if f.starts_with("files") => with_codec!(f, enc, trap => cv.transform_files(&write_files("tr", f, docs), enc, trap)),
+        "twice" => {
+            // the same fitted object transforms another corpus first
+            let first = cv.transform(&decoy_docs())?;
+            assert_eq!(first.rows(), 3);
+            let a = Array1::from(docs.to_vec());
+            cv.transform(&a)
+        }
         "serde" => {
             let js = serde_json::to_string(cv).expect("serialise CountVectorizer");
             let mut back: CountVectorizer = serde_json::from_str(&js).expect("deserialise CountVectorizer");
@@ -401,7 +584,13 @@ fn transform_count(cfg: &Cfg, cv: &CountVectorizer, form: &str, docs: &[String])
 }
 fn transform_tfidf(cfg: &Cfg, tv: &FittedTfIdfVectorizer, form: &str, docs: &[String]) -> PResult<CsMat<f64>> {
     match form {
-        "files" => tv.transform_files(&write_files("tr", docs), hk04::utf8(), hk04::strict()),
+        f if f.starts_with("files") => with_codec!(f, enc, trap => tv.transform_files(&write_files("tr", f, docs), enc, trap)),
+        "twice" => {
+            let first = tv.transform(&decoy_docs())?;
+            assert_eq!(first.rows(), 3);
+            let a = Array1::from(docs.to_vec());
+            tv.transform(&a)
+        }
         "serde" => {
             let js = serde_json::to_string(tv).expect("serialise FittedTfIdfVectorizer");
             let mut back: FittedTfIdfVectorizer = serde_json::from_str(&js).expect("deserialise FittedTfIdfVectorizer");
@@ -470,6 +659,7 @@ fn gen_bound(rng: &mut Rng, n: usize) -> f32 {
 
 fn gen_cfg(rng: &mut Rng, n_docs: usize) -> Cfg {
     let ranges = [(1, 1), (1, 2), (2, 2), (1, 3), (2, 3), (3, 3)];
+    let tok = *rng.pick(&[0u8, 0, 0, 1, 2, 3]);
     let (nmin, nmax) = if rng.chance(2, 5) { (1, 1) } else { *rng.pick(&ranges) };
     let (lo, hi) = match rng.below(8) {
         0 | 1 => (0.0, 1.0),
@@ -484,7 +674,7 @@ fn gen_cfg(rng: &mut Rng, n_docs: usize) -> Cfg {
     Cfg {
         lower: !rng.chance(1, 3),
         norm: !rng.chance(1, 3),
-        tok: *rng.pick(&[0u8, 0, 0, 1, 2]),
+        tok,
         nmin,
         nmax,
         lo,
@@ -537,6 +727,7 @@ fn admitted(cfg: &Cfg, n: usize, word: &str, df: usize) -> Adm {
             return Adm::Out("stopword".into());
         }
     }
+    let stop_ambiguous = cfg.stop_normalised().iter().any(|w| w == word);
     let lo = cmp_bound(cfg.lo, n, df);
     let hi = cmp_bound(cfg.hi, n, df);
     if lo == Cmp::Greater {
@@ -545,22 +736,36 @@ fn admitted(cfg: &Cfg, n: usize, word: &str, df: usize) -> Adm {
     if hi == Cmp::Less {
         return Adm::Out(format!("above_max_df:hi*n={}", if is_frac(cfg.hi, n) { "fractional" } else { "integral" }));
     }
-    if lo == Cmp::Tie || hi == Cmp::Tie {
+    // a stop word that only matches the entry after being normalised like the documents: the
+    // statement does not say whether the stop list is normalised
+    if lo == Cmp::Tie || hi == Cmp::Tie || stop_ambiguous {
         return Adm::Undecided;
     }
     Adm::In
 }
 
-/// oracle for the fitted vocabulary (clauses vocab_*, cap_is_top)
-fn oracle_vocab(ctx: &mut Ctx, em_counts: &mut Vec<String>, cfg: &Cfg, fit_toks: &[Vec<String>], vocab: &[String]) {
-    let n = fit_toks.len();
+/// document frequency (number of training documents containing the entry) and term frequency
+/// (number of occurrences in the training corpus) of every corpus entry, from the reference tokens
+fn corpus_stats(cfg: &Cfg, fit_toks: &[Vec<String>]) -> (BTreeMap<String, usize>, BTreeMap<String, usize>) {
     let mut df: BTreeMap<String, usize> = BTreeMap::new();
+    let mut tf: BTreeMap<String, usize> = BTreeMap::new();
     for d in fit_toks {
-        let set: BTreeSet<String> = naive_grams(d, cfg.nmin, cfg.nmax).into_iter().collect();
+        let grams = naive_grams(d, cfg.nmin, cfg.nmax);
+        for g in &grams {
+            *tf.entry(g.clone()).or_insert(0) += 1;
+        }
+        let set: BTreeSet<String> = grams.into_iter().collect();
         for g in set {
             *df.entry(g).or_insert(0) += 1;
         }
     }
+    (df, tf)
+}
+
+/// oracle for the fitted vocabulary (clauses vocab_*, cap_is_top)
+fn oracle_vocab(ctx: &mut Ctx, em_counts: &mut Vec<String>, cfg: &Cfg, fit_toks: &[Vec<String>], vocab: &[String]) {
+    let n = fit_toks.len();
+    let (df, tf) = corpus_stats(cfg, fit_toks);
     let vset: BTreeSet<&String> = vocab.iter().collect();
     ctx.require(vset.len() == vocab.len(), "vocab_distinct", &cfg.class(), || format!("vocabulary() lists an entry twice: {:?}", vocab));
     for w in vocab {
@@ -612,39 +817,73 @@ fn oracle_vocab(ctx: &mut Ctx, em_counts: &mut Vec<String>, cfg: &Cfg, fit_toks:
             ctx.require(lo_sz <= vocab.len() && vocab.len() <= hi_sz, "cap_size", &cfg.class(), || format!("cap {}: {} admitted entries (+{} undecided), vocabulary has {} (want {}..={})", cap, adm.len(), undecided, vocab.len(), lo_sz, hi_sz));
             // most frequent: every kept entry is at least as frequent as every dropped admitted one
             // (equal frequencies: the statement does not fix the choice)
-            let kept_min = vocab.iter().filter_map(|w| df.get(w)).min().copied();
-            let dropped_max = adm.iter().filter(|(_, w)| !vset.contains(w)).map(|(d, _)| *d).max();
-            if let (Some(k), Some(d)) = (kept_min, dropped_max) {
-                ctx.require(k >= d, "cap_is_top", &cfg.class(), || format!("cap {}: a kept entry has document frequency {} but a dropped admitted entry has {}", cap, k, d));
+            // "most frequent" is read as document frequency (what the code ranks by) or as term
+            // frequency (what the doc comment of `max_features` says): one of the two must hold for
+            // the whole vocabulary
+            let top_by = |fr: &BTreeMap<String, usize>| -> (bool, usize, usize) {
+                let kept_min = vocab.iter().filter_map(|w| fr.get(w)).min().copied();
+                let dropped_max = adm.iter().filter(|(_, w)| !vset.contains(w)).filter_map(|(_, w)| fr.get(*w)).max().copied();
+                match (kept_min, dropped_max) {
+                    (Some(k), Some(d)) => (k >= d, k, d),
+                    _ => (true, 0, 0),
+                }
+            };
+            let (ok_df, k, d) = top_by(&df);
+            let (ok_tf, kt, dt) = top_by(&tf);
+            if ok_tf && !ok_df {
+                em_counts.push("cap_top_by_term_frequency_only".into());
             }
+            ctx.require(ok_df || ok_tf, "cap_is_top", &cfg.class(), || format!("cap {}: a kept entry has document frequency {} but a dropped admitted entry has {} (term frequencies: kept {} dropped {})", cap, k, d, kt, dt));
         }
     }
 }
 
-/// is the fitted vocabulary determined by the statement?  No when a relative bound is within f32
-/// noise of (but not equal to) the document frequency of a corpus entry, or when the feature cap
-/// cuts through entries of equal document frequency.  (Same computation as the driver's.)
-fn decided(cfg: &Cfg, fit_toks: &[Vec<String>], vocab: &[String]) -> bool {
+/// The entries of the training corpus about which the statement promises nothing (`Some(set)`: they
+/// are left out of the compared response, on both sides), or `None` when the whole vocabulary is open.
+/// (Same computation as the driver's `unpromised`.)
+///  * an entry whose document frequency is within f32 noise of (but not equal to) a relative bound
+///    times `n` ("is 1/3 admitted by min_df = fl32(1/3)?" has no answer);
+///  * an entry that is no stop word but equals a stop word normalised like the documents;
+///  * under a feature cap (which interacts with the whole set: any entry of the first two kinds leaves
+///    everything open): an admitted entry that is neither surely kept nor surely dropped — surely kept
+///    = fewer than `cap` other admitted entries are at least as frequent, surely dropped = at least
+///    `cap` admitted entries are strictly more frequent, each under BOTH readings of "frequent"
+///    (document frequency, term frequency).  Entries of equal frequency at the cut are therefore open
+///    (the statement does not say which of equals), everything above and below the cut is compared.
+fn unpromised(cfg: &Cfg, fit_toks: &[Vec<String>]) -> Option<BTreeSet<String>> {
     let n = fit_toks.len();
-    let mut df: BTreeMap<String, usize> = BTreeMap::new();
-    for d in fit_toks {
-        let set: BTreeSet<String> = naive_grams(d, cfg.nmin, cfg.nmax).into_iter().collect();
-        for g in set {
-            *df.entry(g).or_insert(0) += 1;
+    let (df, tf) = corpus_stats(cfg, fit_toks);
+    let stopn = cfg.stop_normalised();
+    let is_stop = |w: &String| cfg.stop.as_ref().map_or(false, |s| s.iter().any(|x| x == w));
+    let u0: BTreeSet<String> = df
+        .iter()
+        .filter(|(w, d)| cmp_bound(cfg.lo, n, **d) == Cmp::Tie || cmp_bound(cfg.hi, n, **d) == Cmp::Tie || (!is_stop(w) && stopn.iter().any(|x| x == *w)))
+        .map(|(w, _)| w.clone())
+        .collect();
+    let cap = match cfg.cap {
+        None => return Some(u0),
+        Some(c) => c,
+    };
+    if !u0.is_empty() {
+        return None;
+    }
+    // exact arithmetic: an f32 times a count below 2^29 is exact in f64
+    let adm: Vec<&String> = df.iter().filter(|(w, d)| !is_stop(w) && cfg.lo as f64 * n as f64 <= **d as f64 && **d as f64 <= cfg.hi as f64 * n as f64).map(|(w, _)| w).collect();
+    let sure = |fr: &BTreeMap<String, usize>, w: &String| -> (bool, bool) {
+        let x = fr[w];
+        let ge = adm.iter().filter(|a| fr[**a] >= x).count() - 1;
+        let gt = adm.iter().filter(|a| fr[**a] > x).count();
+        (ge < cap, gt >= cap)
+    };
+    let mut u = BTreeSet::new();
+    for w in &adm {
+        let (k1, d1) = sure(&df, w);
+        let (k2, d2) = sure(&tf, w);
+        if !(k1 && k2) && !(d1 && d2) {
+            u.insert((*w).clone());
         }
     }
-    if df.values().any(|d| cmp_bound(cfg.lo, n, *d) == Cmp::Tie || cmp_bound(cfg.hi, n, *d) == Cmp::Tie) {
-        return false;
-    }
-    if cfg.cap.is_some() {
-        let vset: BTreeSet<&String> = vocab.iter().collect();
-        let kept: BTreeSet<usize> = vocab.iter().filter_map(|w| df.get(w).copied()).collect();
-        let stop = |w: &String| cfg.stop.as_ref().map_or(false, |s| s.iter().any(|x| x == w));
-        if df.iter().any(|(w, d)| !vset.contains(w) && !stop(w) && kept.contains(d)) {
-            return false;
-        }
-    }
-    true
+    Some(u)
 }
 fn show_margin(decided: bool) -> &'static str {
     if decided { "margin=~3ff0000000000000" } else { "margin=~0000000000000000" }
@@ -652,8 +891,9 @@ fn show_margin(decided: bool) -> &'static str {
 
 /// the documented sparse structure of the count matrix: "if a vocabulary entry was not encountered
 /// in a document, then the relative cell in the sparse matrix will be set to None" — stored cells are
-/// exactly the non-zero counts, column indices increasing within a row
-fn oracle_sparse(ctx: &mut Ctx, class: &str, cs: &CsMat<usize>, naive: &[Vec<usize>]) {
+/// exactly the non-zero counts, column indices increasing within a row.  The tf-idf matrix has the
+/// same stored cells (its values are `count * idf`, which may be 0 for the textbook method).
+fn oracle_sparse<N: Copy + PartialEq + std::fmt::Debug>(ctx: &mut Ctx, class: &str, cs: &CsMat<N>, naive: &[Vec<usize>], zero_is_error: Option<N>) {
     if !cs.is_csr() || cs.rows() != naive.len() {
         ctx.fail("sparse_structure", class, format!("matrix is not a CSR matrix of {} rows (csr={}, rows={})", naive.len(), cs.is_csr(), cs.rows()));
         return;
@@ -666,8 +906,14 @@ fn oracle_sparse(ctx: &mut Ctx, class: &str, cs: &CsMat<usize>, naive: &[Vec<usi
             return;
         }
         for (j, c) in row.iter() {
-            if *c == 0 || cs.get(d, j) != Some(c) {
-                ctx.fail("sparse_structure", class, format!("document {}: stored cell {} holds {} / get() reads {:?}", d, j, c, cs.get(d, j)));
+            if Some(*c) == zero_is_error || cs.get(d, j) != Some(c) {
+                ctx.fail("sparse_structure", class, format!("document {}: stored cell {} holds {:?} / get() reads {:?}", d, j, c, cs.get(d, j)));
+                return;
+            }
+        }
+        for j in 0..cs.cols() {
+            if !want.contains(&j) && cs.get(d, j).is_some() {
+                ctx.fail("sparse_structure", class, format!("document {}: get({}) reads {:?} for an entry that does not occur", d, j, cs.get(d, j)));
                 return;
             }
         }
@@ -708,12 +954,12 @@ fn idf_doc(method: &str, n: usize, df: usize) -> f64 {
     }
 }
 
-fn oracle_tfidf(ctx: &mut Ctx, cfg: &Cfg, method: &str, what: &str, tr_toks: &[Vec<String>], vocab: &[String], nentries: usize, dense: &Array2<f64>) {
+fn oracle_tfidf(ctx: &mut Ctx, cfg: &Cfg, method: &str, what: &str, tr_toks: &[Vec<String>], vocab: &[String], nentries: usize, dense: &Array2<f64>) -> Option<Vec<Vec<usize>>> {
     let class = format!("{}:method={}:{}", what, method, cfg.class());
     ctx.require(nentries == vocab.len(), "nentries", &class, || format!("nentries() = {} but vocabulary() has {} entries", nentries, vocab.len()));
     if dense.dim() != (tr_toks.len(), vocab.len()) {
         ctx.fail("shape", &class, format!("matrix is {:?} for {} documents and {} entries", dense.dim(), tr_toks.len(), vocab.len()));
-        return;
+        return None;
     }
     let n = tr_toks.len();
     let counts: Vec<Vec<usize>> = tr_toks
@@ -736,10 +982,11 @@ fn oracle_tfidf(ctx: &mut Ctx, cfg: &Cfg, method: &str, what: &str, tr_toks: &[V
             };
             if !ok {
                 ctx.fail("tfidf_entry", &class, format!("document {} entry {:?}: count {}, n {}, df {}: got {}, want count*idf = {}", d, vocab[j], c, n, df, got, if c == 0 { 0.0 } else { c as f64 * idf_doc(method, n, df) }));
-                return;
+                return Some(counts);
             }
         }
     }
+    Some(counts)
 }
 
 /// sort the vocabulary, return (sorted words, permutation: sorted position -> original column)
@@ -751,15 +998,63 @@ fn canon(vocab: &[String]) -> (Vec<String>, Vec<usize>) {
 fn show_vocab(v: &[String]) -> String {
     if v.is_empty() { "-".to_string() } else { list(v.iter(), |w| xw(w)) }
 }
-fn resp_counts(nentries: usize, vocab: &[String], dense: &Array2<usize>, nnz: usize, decided: bool) -> String {
+/// canonical positions (sorted by word) of the compared columns: the entries outside `mask`
+fn shown_columns(vocab: &[String], mask: Option<&BTreeSet<String>>) -> (Vec<String>, Vec<usize>) {
     let (sv, perm) = canon(vocab);
-    let rows: Vec<Vec<usize>> = (0..dense.nrows()).map(|d| perm.iter().map(|j| dense[(d, *j)]).collect()).collect();
-    format!("ok n={} vocab={} counts={} nnz={} {}", nentries, show_vocab(&sv), list2(rows.iter().map(|r| r.iter()), |c| c.to_string()), nnz, show_margin(decided))
+    let keep: Vec<usize> = (0..sv.len()).filter(|k| mask.map_or(true, |m| !m.contains(&sv[*k]))).collect();
+    (keep.iter().map(|k| sv[*k].clone()).collect(), keep.iter().map(|k| perm[*k]).collect())
 }
-fn resp_tfidf(nentries: usize, vocab: &[String], dense: &Array2<f64>, decided: bool) -> String {
-    let (sv, perm) = canon(vocab);
-    let rows: Vec<Vec<f64>> = (0..dense.nrows()).map(|d| perm.iter().map(|j| dense[(d, *j)]).collect()).collect();
-    format!("ok n={} vocab={} tfidf={} {}", nentries, show_vocab(&sv), list2(rows.iter().map(|r| r.iter()), |c| format!("~{}", hex64c(*c))), show_margin(decided))
+/// total size of the vocabulary: promised only under a cap (`min(cap, |admitted|)`) or when nothing is masked
+fn show_size(n: usize, mask: Option<&BTreeSet<String>>, cap: bool) -> String {
+    if cap || mask.map_or(false, |m| m.is_empty()) { n.to_string() } else { "-".to_string() }
+}
+/// the stored cells of every row as `position:value` (position among the compared columns), by position
+fn stored_cells<N: Copy>(cs: &CsMat<N>, cols: &[usize], show: impl Fn(N) -> String) -> String {
+    let rows: Vec<Vec<String>> = cs
+        .outer_iterator()
+        .map(|row| {
+            let mut cells: Vec<(usize, String)> = row.iter().filter_map(|(j, c)| cols.iter().position(|x| *x == j).map(|k| (k, show(*c)))).collect();
+            cells.sort();
+            cells.into_iter().map(|(k, c)| format!("{}/{}", k, c)).collect()
+        })
+        .collect();
+    list2(rows.iter().map(|r| r.iter()), |c| c.clone())
+}
+fn resp_counts(nentries: usize, vocab: &[String], cs: &CsMat<usize>, dense: &Array2<usize>, mask: Option<&BTreeSet<String>>, cap: bool) -> String {
+    let (sv, cols) = shown_columns(vocab, mask);
+    let ok_dim = dense.ncols() == vocab.len() && cs.cols() == vocab.len() && cs.rows() == dense.nrows();
+    if !ok_dim {
+        return format!("ok shape-mismatch {:?} {}", dense.dim(), vocab.len());
+    }
+    let rows: Vec<Vec<usize>> = (0..dense.nrows()).map(|d| cols.iter().map(|j| dense[(d, *j)]).collect()).collect();
+    let gets: Vec<Vec<String>> = (0..dense.nrows()).map(|d| cols.iter().map(|j| cs.get(d, *j).map_or("N".to_string(), |c| c.to_string())).collect()).collect();
+    format!(
+        "ok n={} size={} vocab={} counts={} sp={} get={} {}",
+        sv.len(),
+        show_size(nentries, mask, cap),
+        show_vocab(&sv),
+        list2(rows.iter().map(|r| r.iter()), |c| c.to_string()),
+        stored_cells(cs, &cols, |c| c.to_string()),
+        list2(gets.iter().map(|r| r.iter()), |c| c.clone()),
+        show_margin(mask.is_some())
+    )
+}
+fn resp_tfidf(nentries: usize, vocab: &[String], cs: &CsMat<f64>, dense: &Array2<f64>, mask: Option<&BTreeSet<String>>, cap: bool) -> String {
+    let (sv, cols) = shown_columns(vocab, mask);
+    let ok_dim = dense.ncols() == vocab.len() && cs.cols() == vocab.len() && cs.rows() == dense.nrows();
+    if !ok_dim {
+        return format!("ok shape-mismatch {:?} {}", dense.dim(), vocab.len());
+    }
+    let rows: Vec<Vec<f64>> = (0..dense.nrows()).map(|d| cols.iter().map(|j| dense[(d, *j)]).collect()).collect();
+    format!(
+        "ok n={} size={} vocab={} tfidf={} sp={} {}",
+        sv.len(),
+        show_size(nentries, mask, cap),
+        show_vocab(&sv),
+        list2(rows.iter().map(|r| r.iter()), |c| format!("~{}", hex64c(*c))),
+        stored_cells(cs, &cols, |c| format!("~{}", hex64c(c))),
+        show_margin(mask.is_some())
+    )
 }
 
 fn err_kind(e: &linfa_preprocessing::PreprocessingError) -> String {
@@ -808,7 +1103,8 @@ fn gen_large(rng: &mut Rng, n: usize) -> Corpus {
         (0..k).map(|_| pick(rng)).collect::<Vec<_>>().join(" ")
     };
     let fit: Vec<String> = (0..n).map(|_| doc(rng)).collect();
-    let mut tr: Vec<String> = (0..rng.below(4)).map(|_| rng.pick(&fit).clone()).collect();
+    let many = if rng.chance(1, 4) { 11 + rng.below(30) } else { rng.below(4) };
+    let mut tr: Vec<String> = (0..many).map(|_| rng.pick(&fit).clone()).collect();
     for _ in 0..rng.below(4) {
         tr.push(format!("{} zebra {}", doc(rng), doc(rng)));
     }
@@ -831,7 +1127,8 @@ fn add_stop_cap(rng: &mut Rng, cfg: &mut Cfg, fit_toks: &[Vec<String>]) {
             match rng.below(6) {
                 0..=2 if !grams.is_empty() => s.push(rng.pick(&grams).clone()),
                 3 if !unis.is_empty() => s.push(rng.pick(&unis).clone()),
-                4 if !unis.is_empty() => s.push(rng.pick(&unis).to_uppercase()),
+                // ASCII letters upper-cased (stays inside the alphabet of the reference tables)
+                4 if !unis.is_empty() => s.push(rng.pick(&unis).to_ascii_uppercase()),
                 _ => s.push(rng.pick(OOV).to_string()),
             }
         }
@@ -846,10 +1143,27 @@ fn has_big_gram(vocab: &[String]) -> bool {
     vocab.iter().any(|w| w.matches(' ').count() >= 3)
 }
 
+/// settings with a NaN bound pass `check_ref` (every comparison with NaN is false) but are outside the
+/// property's guard `0 <= lo <= hi <= 1`: whether they are refused or fitted is not promised, so the
+/// request is oracle-only (`#`: the model is not asked)
+fn unpromised_prefix(cfg: &Cfg) -> &'static str {
+    if cfg.lo.is_nan() || cfg.hi.is_nan() { "#" } else { "" }
+}
+/// for the `reuse` form: the tokens the documents would have under the tokeniser the parameter object
+/// was first built with (the model's parameter object decides which table the fit reads)
+fn alt_tokens(cfg: &Cfg, corpus: &Corpus, ffit: &str) -> String {
+    if ffit != "reuse" {
+        return String::new();
+    }
+    let f: Vec<Vec<String>> = corpus.fit.iter().map(|d| ref_tokens_decoy(cfg, d)).collect();
+    let t: Vec<Vec<String>> = corpus.tr.iter().map(|d| ref_tokens_decoy(cfg, d)).collect();
+    format!(" tokfn={} fitalt={} tralt={}", (cfg.tok == 2) as u8, show_docs(&f), show_docs(&t))
+}
+
 fn op_count(em: &mut Em, cfg: &Cfg, corpus: &Corpus, ffit: &str, ftr: &str) {
     let fit_toks: Vec<Vec<String>> = corpus.fit.iter().map(|d| ref_tokens(cfg, d)).collect();
     let tr_toks: Vec<Vec<String>> = corpus.tr.iter().map(|d| ref_tokens(cfg, d)).collect();
-    let op = format!("count fit={} tr={} {} ffit={} ftr={}", show_docs(&fit_toks), show_docs(&tr_toks), cfg.settings(), ffit, ftr);
+    let op = format!("{}count fit={} tr={} {} ffit={} ftr={}{}", unpromised_prefix(cfg), show_docs(&fit_toks), show_docs(&tr_toks), cfg.settings(), ffit, ftr, alt_tokens(cfg, corpus, ffit));
     let mut extra: Vec<String> = vec![];
     let covered = cfg.covered();
     let class = format!("count:{}", cfg.class());
@@ -871,7 +1185,13 @@ fn op_count(em: &mut Em, cfg: &Cfg, corpus: &Corpus, ffit: &str, ftr: &str) {
                 if covered {
                     oracle_vocab(ctx, &mut extra, cfg, &fit_toks, &vocab);
                     let naive = oracle_counts(ctx, cfg, "count", &tr_toks, &vocab, cv.nentries(), &dense);
-                    oracle_sparse(ctx, &format!("count:ftr={}", ftr), &cs, &naive);
+                    oracle_sparse(ctx, &format!("count:ftr={}", ftr), &cs, &naive, Some(0usize));
+                    if dense.iter().any(|c| *c > 12) {
+                        extra.push("transformed:count:cell_above_12".into());
+                    }
+                    if corpus.tr.len() > 10 {
+                        extra.push("transformed:count:more_than_10_docs".into());
+                    }
                     extra.push(format!("fitted:count:ffit={}", ffit));
                     extra.push(format!("transformed:count:ftr={}", ftr));
                     if !vocab.is_empty() {
@@ -884,7 +1204,11 @@ fn op_count(em: &mut Em, cfg: &Cfg, corpus: &Corpus, ffit: &str, ftr: &str) {
                         extra.push("fitted:large_corpus".into());
                     }
                 }
-                resp_counts(cv.nentries(), &vocab, &dense, cs.nnz(), decided(cfg, &fit_toks, &vocab))
+                let mask = unpromised(cfg, &fit_toks);
+                if mask.as_ref().map_or(false, |m| !m.is_empty()) {
+                    extra.push("unpromised_entries_masked".into());
+                }
+                resp_counts(cv.nentries(), &vocab, &cs, &dense, mask.as_ref(), cfg.cap.is_some())
             }
         }
     };
@@ -901,7 +1225,7 @@ fn op_count(em: &mut Em, cfg: &Cfg, corpus: &Corpus, ffit: &str, ftr: &str) {
 fn op_tfidf(em: &mut Em, cfg: &Cfg, method: &str, corpus: &Corpus, ffit: &str, ftr: &str) {
     let fit_toks: Vec<Vec<String>> = corpus.fit.iter().map(|d| ref_tokens(cfg, d)).collect();
     let tr_toks: Vec<Vec<String>> = corpus.tr.iter().map(|d| ref_tokens(cfg, d)).collect();
-    let op = format!("tfidf fit={} tr={} {} method={} ffit={} ftr={}", show_docs(&fit_toks), show_docs(&tr_toks), cfg.settings(), method, ffit, ftr);
+    let op = format!("{}tfidf fit={} tr={} {} method={} ffit={} ftr={}{}", unpromised_prefix(cfg), show_docs(&fit_toks), show_docs(&tr_toks), cfg.settings(), method, ffit, ftr, alt_tokens(cfg, corpus, ffit));
     let mut extra: Vec<String> = vec![];
     let covered = cfg.covered();
     let class = format!("tfidf:method={}:{}", method, cfg.class());
@@ -924,10 +1248,13 @@ fn op_tfidf(em: &mut Em, cfg: &Cfg, method: &str, corpus: &Corpus, ffit: &str, f
                 };
                 ctx.require(*tv.method() == want_m, "method_kept", &class, || format!("fitted method {:?}", tv.method()));
                 let vocab = tv.vocabulary().clone();
-                let dense: Array2<f64> = transform_tfidf(cfg, &tv, ftr, &corpus.tr).expect("transform").to_dense();
+                let cs = transform_tfidf(cfg, &tv, ftr, &corpus.tr).expect("transform");
+                let dense: Array2<f64> = cs.to_dense();
                 if covered {
                     oracle_vocab(ctx, &mut extra, cfg, &fit_toks, &vocab);
-                    oracle_tfidf(ctx, cfg, method, "tfidf", &tr_toks, &vocab, tv.nentries(), &dense);
+                    if let Some(naive) = oracle_tfidf(ctx, cfg, method, "tfidf", &tr_toks, &vocab, tv.nentries(), &dense) {
+                        oracle_sparse(ctx, &format!("tfidf:ftr={}", ftr), &cs, &naive, None);
+                    }
                     extra.push(format!("fitted:tfidf:ffit={}", ffit));
                     extra.push(format!("transformed:tfidf:ftr={}", ftr));
                     extra.push(format!("transformed:tfidf:method={}", method));
@@ -935,7 +1262,8 @@ fn op_tfidf(em: &mut Em, cfg: &Cfg, method: &str, corpus: &Corpus, ffit: &str, f
                         extra.push("transformed:tfidf:nonzero_cell".into());
                     }
                 }
-                resp_tfidf(tv.nentries(), &vocab, &dense, decided(cfg, &fit_toks, &vocab))
+                let mask = unpromised(cfg, &fit_toks);
+                resp_tfidf(tv.nentries(), &vocab, &cs, &dense, mask.as_ref(), cfg.cap.is_some())
             }
         }
     };
@@ -949,10 +1277,27 @@ fn op_tfidf(em: &mut Em, cfg: &Cfg, method: &str, corpus: &Corpus, ffit: &str, f
     }
 }
 
-fn op_fixed(em: &mut Em, cfg: &Cfg, method: Option<&str>, words: &[String], tr_docs: &[String], ftr: &str) {
+/// `fit_vocabulary` through the element types `T: ToString` and the checked parameter set
+fn fit_vocab_count(cfg: &Cfg, form: &str, words: &[String]) -> PResult<CountVectorizer> {
+    match form {
+        "strref" => cfg.count_params().fit_vocabulary(&words.iter().map(|s| s.as_str()).collect::<Vec<&str>>()),
+        "display" => cfg.count_params().fit_vocabulary(&words.iter().map(|s| Doc(s.clone())).collect::<Vec<Doc>>()),
+        "checked" => cfg.count_params().check()?.fit_vocabulary(words),
+        _ => cfg.count_params().fit_vocabulary(words),
+    }
+}
+fn fit_vocab_tfidf(cfg: &Cfg, m: &str, form: &str, words: &[String]) -> PResult<FittedTfIdfVectorizer> {
+    match form {
+        "strref" => cfg.tfidf_params(m).fit_vocabulary(&words.iter().map(|s| s.as_str()).collect::<Vec<&str>>()),
+        "display" => cfg.tfidf_params(m).fit_vocabulary(&words.iter().map(|s| Doc(s.clone())).collect::<Vec<Doc>>()),
+        _ => cfg.tfidf_params(m).fit_vocabulary(words),
+    }
+}
+
+fn op_fixed(em: &mut Em, cfg: &Cfg, method: Option<&str>, words: &[String], tr_docs: &[String], fvoc: &str, ftr: &str) {
     let tr_toks: Vec<Vec<String>> = tr_docs.iter().map(|d| ref_tokens(cfg, d)).collect();
     let name = if method.is_some() { "fixed_tfidf" } else { "fixed" };
-    let mut op = format!("{} vocab={} tr={} nmin={} nmax={} lo={} hi={} ftr={}", name, list(words.iter(), |w| xw(w)), show_docs(&tr_toks), cfg.nmin, cfg.nmax, hex32(cfg.lo), hex32(cfg.hi), ftr);
+    let mut op = format!("{}{} vocab={} tr={} nmin={} nmax={} lo={} hi={} fvoc={} ftr={}", unpromised_prefix(cfg), name, list(words.iter(), |w| xw(w)), show_docs(&tr_toks), cfg.nmin, cfg.nmax, hex32(cfg.lo), hex32(cfg.hi), fvoc, ftr);
     if let Some(m) = method {
         op.push_str(&format!(" method={}", m));
     }
@@ -963,7 +1308,7 @@ fn op_fixed(em: &mut Em, cfg: &Cfg, method: Option<&str>, words: &[String], tr_d
         oracle_settings(ctx, cfg, tr_docs, &tr_toks);
         let wset: BTreeSet<&String> = words.iter().collect();
         match method {
-            None => match cfg.count_params().fit_vocabulary(words) {
+            None => match fit_vocab_count(cfg, fvoc, words) {
                 Err(e) => {
                     if covered {
                         ctx.fail("fit_succeeds", &class, format!("fit_vocabulary returned {:?} on valid settings", e));
@@ -978,13 +1323,14 @@ fn op_fixed(em: &mut Em, cfg: &Cfg, method: Option<&str>, words: &[String], tr_d
                         let vset: BTreeSet<&String> = vocab.iter().collect();
                         ctx.require(vset == wset && vocab.len() == wset.len(), "fixed_vocab_is_given_set", &class, || format!("given {:?}, vocabulary() {:?}", words, vocab));
                         let naive = oracle_counts(ctx, cfg, "fixed", &tr_toks, &vocab, cv.nentries(), &dense);
-                        oracle_sparse(ctx, &format!("fixed:ftr={}", ftr), &cs, &naive);
+                        oracle_sparse(ctx, &format!("fixed:ftr={}", ftr), &cs, &naive, Some(0usize));
                         extra.push(format!("transformed:fixed:ftr={}", ftr));
+                        extra.push(format!("fitted:fixed:fvoc={}", fvoc));
                     }
-                    resp_counts(cv.nentries(), &vocab, &dense, cs.nnz(), true)
+                    resp_counts(cv.nentries(), &vocab, &cs, &dense, Some(&BTreeSet::new()), false)
                 }
             },
-            Some(m) => match cfg.tfidf_params(m).fit_vocabulary(words) {
+            Some(m) => match fit_vocab_tfidf(cfg, m, fvoc, words) {
                 Err(e) => {
                     if covered {
                         ctx.fail("fit_succeeds", &class, format!("fit_vocabulary returned {:?} on valid settings", e));
@@ -993,14 +1339,18 @@ fn op_fixed(em: &mut Em, cfg: &Cfg, method: Option<&str>, words: &[String], tr_d
                 }
                 Ok(tv) => {
                     let vocab = tv.vocabulary().clone();
-                    let dense: Array2<f64> = transform_tfidf(cfg, &tv, ftr, tr_docs).expect("transform").to_dense();
+                    let cs = transform_tfidf(cfg, &tv, ftr, tr_docs).expect("transform");
+                    let dense: Array2<f64> = cs.to_dense();
                     if covered {
                         let vset: BTreeSet<&String> = vocab.iter().collect();
                         ctx.require(vset == wset && vocab.len() == wset.len(), "fixed_vocab_is_given_set", &class, || format!("given {:?}, vocabulary() {:?}", words, vocab));
-                        oracle_tfidf(ctx, cfg, m, "fixed", &tr_toks, &vocab, tv.nentries(), &dense);
+                        if let Some(naive) = oracle_tfidf(ctx, cfg, m, "fixed", &tr_toks, &vocab, tv.nentries(), &dense) {
+                            oracle_sparse(ctx, &format!("fixed_tfidf:ftr={}", ftr), &cs, &naive, None);
+                        }
                         extra.push(format!("transformed:fixed_tfidf:ftr={}", ftr));
+                        extra.push(format!("fitted:fixed_tfidf:fvoc={}", fvoc));
                     }
-                    resp_tfidf(tv.nentries(), &vocab, &dense, true)
+                    resp_tfidf(tv.nentries(), &vocab, &cs, &dense, Some(&BTreeSet::new()), false)
                 }
             },
         }
@@ -1084,10 +1434,33 @@ pub fn run(em: &mut Em, rng: &mut Rng) {
                 op_tfidf(em, &cfg, "smooth", &corpus4, f, t);
             }
         }
+        // a Latin-1 corpus through ISO-8859-1 files
+        let corpus_l1 = Corpus { fit: vec!["caf\u{e9} CAF\u{c9} na\u{ef}ve".into(), "caf\u{e9} two".into(), "\u{e5}ng two two".into()], tr: vec!["na\u{ef}ve caf\u{e9} zebra".into(), "".into()] };
+        for tok in 0..4u8 {
+            let cfg = Cfg { lower: true, norm: tok % 2 == 0, tok, nmin: 1, nmax: 2, lo: 0.0, hi: 1.0, stop: None, cap: None };
+            op_count(em, &cfg, &corpus_l1, "fileslatin1", "fileslatin1");
+            op_tfidf(em, &cfg, "smooth", &corpus_l1, "fileslatin1", "fileslatin1");
+        }
+        // the same parameter object configured and fitted twice / the same fitted object transforming twice
+        for tok in 0..4u8 {
+            let cfg = Cfg { lower: true, norm: true, tok, nmin: 1, nmax: 2, lo: 0.0, hi: 1.0, stop: None, cap: None };
+            op_count(em, &cfg, &corpus4, "reuse", "twice");
+            for m in 0..3 {
+                op_tfidf(em, &cfg, idf_method_name(m), &corpus4, "reuse", "twice");
+            }
+        }
+        // NFKD before lower-casing: compatibility characters that decompose to upper-case letters
+        let corpus_tm = Corpus { fit: vec!["caf\u{2122} caftm CAFTM".into(), "\u{2116}7 no7 \u{1d2c}b ab Ab".into()], tr: vec!["caftm \u{2122} no7 ab".into()] };
+        for (l, nm) in [(true, true), (true, false), (false, true), (false, false)] {
+            for tok in 0..4u8 {
+                let cfg = Cfg { lower: l, norm: nm, tok, nmin: 1, nmax: 1, lo: 0.0, hi: 1.0, stop: None, cap: None };
+                op_count(em, &cfg, &corpus_tm, "owned", "owned");
+            }
+        }
         // ligature, combining accent, case
         let corpus = Corpus { fit: vec!["\u{fb01}sh FISH caf\u{e9} cafe\u{301}".into(), "CAF\u{c9} \u{130}st".into(), "".into()], tr: vec!["fish cafe\u{301} x".into(), "".into()] };
         for (l, nm) in [(true, true), (true, false), (false, true), (false, false)] {
-            for tok in 0..3u8 {
+            for tok in 0..4u8 {
                 let cfg = Cfg { lower: l, norm: nm, tok, nmin: 1, nmax: 2, lo: 0.0, hi: 1.0, stop: None, cap: None };
                 op_count(em, &cfg, &corpus, "owned", "owned");
                 for m in 0..3 {
@@ -1113,8 +1486,8 @@ pub fn run(em: &mut Em, rng: &mut Rng) {
     // ---- NGramList directly: all ranges 1<=min<=max<=6 on short word lists
     let pool: Vec<String> = ["a", "b", "c", "a b", ""].iter().map(|s| s.to_string()).collect();
     for len in 0..=(if deep { 10 } else { 8 }) {
-        for nmin in 1..=6 {
-            for nmax in nmin..=6 {
+        for nmin in 1..=7 {
+            for nmax in nmin..=7 {
                 for _ in 0..(if deep { 6 } else { 2 }) {
                     let words: Vec<String> = (0..len).map(|_| rng.pick(&pool).clone()).collect();
                     op_ngrams(em, &words, nmin, nmax);
@@ -1126,11 +1499,26 @@ pub fn run(em: &mut Em, rng: &mut Rng) {
     let rounds = if deep { 60000 } else { 4500 };
     for r in 0..rounds {
         let long_docs = r % 8 == 0;
-        let (max_docs, maxw) = if deep && r % 4 == 0 { (12, if long_docs { 14 } else { 10 }) } else { (7, if long_docs { 12 } else { 7 }) };
-        let corpus = gen_corpus(rng, max_docs, maxw);
+        let (max_docs, maxw) = if r % 16 == 5 {
+            // 8..29 training documents (short ones)
+            (29, 4)
+        } else if deep && r % 4 == 0 {
+            (12, if long_docs { 14 } else { 10 })
+        } else {
+            (7, if long_docs { 12 } else { 7 })
+        };
+        let mut corpus = gen_corpus(rng, max_docs, maxw);
+        if r % 32 == 7 {
+            // a cell count above 12: one word many times in one document (training and transformed)
+            let w = *rng.pick(&["two", "Two", "caf\u{e9}", "fish"]);
+            let k = 13 + rng.below(if deep { 300 } else { 40 });
+            let d = vec![w; k].join(" ");
+            corpus.fit.push(d.clone());
+            corpus.tr.push(d);
+        }
         let mut cfg = gen_cfg(rng, corpus.fit.len());
         if long_docs || rng.chance(1, 10) {
-            let big = [(1, 4), (2, 4), (3, 4), (4, 4), (1, 5), (2, 5), (3, 5), (5, 5), (4, 5), (1, 6), (2, 6), (6, 6)];
+            let big = [(1, 4), (2, 4), (3, 4), (4, 4), (1, 5), (2, 5), (3, 5), (5, 5), (4, 5), (1, 6), (2, 6), (6, 6), (1, 7), (7, 7), (5, 8), (2, 9)];
             let (a, b) = *rng.pick(&big);
             cfg.nmin = a;
             cfg.nmax = b;
@@ -1173,7 +1561,8 @@ pub fn run(em: &mut Em, rng: &mut Rng) {
             }
             let m = if r % 10 == 0 { Some(idf_method_name(rng.below(3))) } else { None };
             let t = if rng.coin() { "owned" } else { *rng.pick(TR_FORMS) };
-            op_fixed(em, &cfg, m, &words, &corpus.tr, t);
+            let fv = if m.is_some() { *rng.pick(&["owned", "strref", "display"]) } else { *rng.pick(VOC_FORMS) };
+            op_fixed(em, &cfg, m, &words, &corpus.tr, fv, t);
         }
     }
     // ---- many documents: the f32 product `bound * n` for n in the tens and hundreds, large
